@@ -1,7 +1,7 @@
 SPECIFICATION Spec
 CONSTANTS
-  TypeSet <- TypesAscii
-  TopLen = 3
+  TypeSet <- QuickA
+  TopLen = 2
   TypesOnly = FALSE
   Dump = TRUE
 INVARIANT GoodIsValid
